@@ -1,0 +1,30 @@
+//! Scheduling points for the model-checking harness in `/verif`.
+//!
+//! Only compiled with `--cfg jsonrpsee_verif`. A point is a no-op until a harness
+//! installs a hook with [`install`]; then `point(label).await` yields to that hook,
+//! which lets a controlled scheduler decide when the calling task continues.
+
+use std::future::Future;
+use std::pin::Pin;
+use std::sync::OnceLock;
+
+/// Future returned by the installed hook.
+pub type PointFuture = Pin<Box<dyn Future<Output = ()> + Send>>;
+/// Hook signature.
+pub type PointFn = fn(&'static str) -> Option<PointFuture>;
+
+static POINT: OnceLock<PointFn> = OnceLock::new();
+
+/// Install the process-wide hook (first call wins).
+pub fn install(f: PointFn) {
+	let _ = POINT.set(f);
+}
+
+/// A named scheduling point.
+pub async fn point(label: &'static str) {
+	if let Some(f) = POINT.get() {
+		if let Some(fut) = f(label) {
+			fut.await;
+		}
+	}
+}
